@@ -23,7 +23,8 @@ RULE = ("Hypothesis-generated polygons of 3..12 vertices (thorough up to "
         "offsets (up to 2^26: polygons far from the origin) and scaling by "
         "powers of two never change the answer; "
         "cells_inside_polygon returns exactly the cells whose centre the "
-        "oracle puts inside; grids of more than a million cells against analytic "
+        "oracle puts inside, also after the grid was moved / rescaled in "
+        "place and on a relocated clone; grids of more than a million cells against analytic "
         "rectangles. Non-trivial = a judged point level with a "
         "vertex, or a non-convex / self-intersecting polygon.")
 
@@ -113,7 +114,12 @@ def cases(draw, tier):
             "grid": [draw(st.integers(1, 8)), draw(st.integers(1, 8)),
                      draw(st.sampled_from([1., 0.5, 2.])),
                      draw(st.sampled_from([-4.25, -5., -3.75])),
-                     draw(st.sampled_from([-4.25, -5., -3.75]))]}
+                     draw(st.sampled_from([-4.25, -5., -3.75]))],
+            # the grid is moved / rescaled in place, and a clone of it is
+            # relocated, between two queries
+            "regeo": [draw(st.sampled_from([0., 1., -2.5, 0.75])),
+                      draw(st.sampled_from([0., -1., 3.25, 0.5])),
+                      draw(st.sampled_from([1., 1., 2., 0.5]))]}
 
 
 OPTS = {}
@@ -219,21 +225,45 @@ def oracle(case):
     # cells_inside_polygon
     ncols, nrows, csz, xll, yll = case["grid"]
     g = Grid("g", ncols, nrows, cellsize=csz, xllcorner=xll, yllcorner=yll)
-    df = g.cells_inside_polygon(Pc)
-    centres = g.cell2coord(np.arange(nrows * ncols))
-    got = set(int(c) for c in df["cell"].values)
-    for c, xy in enumerate(centres):
-        if dist_boundary(xy, poly) < 1e-6 * size:
-            continue
-        e = inside_exact(xy, poly)
-        if e != (c in got):
-            raise Violation(
-                f"cells_inside_polygon: cell {c} centre {xy.tolist()} is "
-                f"{'inside' if e else 'outside'} by the even-odd rule but "
-                f"{'listed' if c in got else 'not listed'}; polygon {poly}")
-    if len(df) and (not np.array_equal(
-            centres[df["cell"].values], df[["x", "y"]].values)):
-        raise Violation("cells_inside_polygon x, y differ from cell centres")
+
+    def check_grid(g, what):
+        df = g.cells_inside_polygon(Pc)
+        nr_, nc_ = g.nrows, g.ncols
+        k = np.arange(nr_ * nc_)
+        # cell centres written out from the georeferencing
+        centres = np.column_stack([
+            g.xllcorner + (k % nc_ + 0.5) * g.cellsize,
+            g.yllcorner + (nr_ - 1 - k // nc_ + 0.5) * g.cellsize])
+        got = set(int(c) for c in df["cell"].values)
+        for c, xy in enumerate(centres):
+            if dist_boundary(xy, poly) < 1e-6 * size:
+                continue
+            e = inside_exact(xy, poly)
+            if e != (c in got):
+                raise Violation(
+                    f"cells_inside_polygon{what}: cell {c} centre "
+                    f"{xy.tolist()} is {'inside' if e else 'outside'} by "
+                    f"the even-odd rule but "
+                    f"{'listed' if c in got else 'not listed'}; polygon "
+                    f"{poly}")
+        if len(df) and (not np.array_equal(
+                centres[df["cell"].values], df[["x", "y"]].values)):
+            raise Violation(f"cells_inside_polygon{what}: x, y differ from "
+                            "the cell centres")
+
+    check_grid(g, "")
+    dx, dy, fac = case.get("regeo", [0., 0., 1.])
+    if (dx, dy, fac) != (0., 0., 1.):
+        g2 = g.clone()
+        g2.xllcorner = xll - dx
+        g2.yllcorner = yll + dy
+        check_grid(g2, " (relocated clone of a grid already queried)")
+        g.xllcorner = xll + dx
+        g.yllcorner = yll - dy
+        g.cellsize = csz * fac
+        check_grid(g, " (second query after the grid was moved / rescaled "
+                   f"in place by {dx}, {-dy}, x{fac})")
+        labels.append("geometry-edited-between-queries")
     if not nt:
         pass
     else:
